@@ -67,7 +67,7 @@ def lexrun(seed, tier, log=print, extra_modes=('p',)):
         ri = P.random_inputs(R, corpus[i], cfg['n_random'])
         if corpus[i].utf8:
             ri = [b for b in ri if P.is_valid_utf8(list(b))]
-        allin = sorted(set(gi) | set(ri) | {b''})
+        allin = sorted(set(gi) | set(ri) | set(P.sequence_inputs(caps[i], corpus[i].utf8)) | {b''})
         inputs[i] = allin
         stats[i] = dict(st, n_inputs=len(allin))
     # zoo
@@ -105,7 +105,8 @@ def lexrun(seed, tier, log=print, extra_modes=('p',)):
     creqs = []
     cin = {}
     for i in accepted:
-        if any(l.cb for l in corpus[i].leaves):
+        # (the library's own logos::skip does not announce itself)
+        if any(l.cb for l in corpus[i].leaves) and not any(getattr(l, 'cb_form', 0) == 5 for l in corpus[i].leaves):
             cin[i] = inputs[i][:: max(1, len(inputs[i]) // 120)]
             for b in cin[i]:
                 creqs.append('%d c %s' % (i, P.hexs(b)))
